@@ -5,3 +5,4 @@ import NiVerif.Props.C04
 import NiVerif.Props.C14
 import NiVerif.Props.C08
 import NiVerif.Props.C20
+import NiVerif.Props.C16
